@@ -409,10 +409,11 @@ func cmpCols(which string, exp map[string]expCol, got []ocol) (sig, what string)
 			return "column-type-mismatch", fmt.Sprintf("%s column %q: type %q, printed %q", which, k, g.Type, e.typ)
 		}
 		if e.bit {
-			if (g.Value == e.val && g.Quoted) || (g.Value == e.rawLit && !g.Quoted) {
+			// since fix ced041a a bit string B'0101' must decode to its digits, Quoted
+			if g.Value == e.val && g.Quoted {
 				continue
 			}
-			return "bit-literal-mangled", fmt.Sprintf("%s column %q: bit string %s decoded as value %q quoted=%v: neither the datum %q nor the literal", which, k, e.rawLit, g.Value, g.Quoted, e.val)
+			return "bit-literal-mangled", fmt.Sprintf("%s column %q: bit string %s decoded as value %q quoted=%v, expected the digits %q quoted", which, k, e.rawLit, g.Value, g.Quoted, e.val)
 		}
 		if g.Value != e.val || g.Quoted != e.quoted {
 			return "column-value-mismatch", fmt.Sprintf("%s column %q: value %q quoted=%v, printed from %q quoted=%v", which, k, g.Value, g.Quoted, e.val, e.quoted)
